@@ -242,22 +242,51 @@ func (s *Sim) reexecute(li int, name string, c *chainState) {
 			}
 		}
 	}
-	// compile errors must be the same with and without the cache
+	// refusals must be the same with and without the cache: a request refused at compile / variable /
+	// resource time must also be refused by a fresh pipeline, and an accepted one accepted
 	if s.wants("C08") {
 		for _, o := range s.ledgerOps(li) {
-			if o.Script == nil || !o.Returned {
+			if o.Script == nil || !o.Returned || o.Script.Plain == "" {
 				continue
 			}
-			_, err := compiler.Compile(o.Script.Plain)
-			if o.ErrClass == "tx:COMPILATION_FAILED" && err == nil && o.Op.Kind == "script" && o.Op.Tpl == tplRaw {
-				// may still be a variable / resource error; only flag when the fresh pipeline succeeds entirely
-				continue
-			}
-			if err != nil && o.Err == nil {
-				s.violate("C08", "cache-accepts-rejected-program", fmt.Sprintf("%s: request %s succeeded but a fresh compilation of its script fails: %v", name, o.Name, err))
+			fresh := s.freshPipelineFails(ctx, o)
+			switch {
+			case o.ErrClass == "tx:COMPILATION_FAILED" && !fresh && len(o.acctReads) == 0:
+				s.violate("C08", "cache-rejects-valid-program", fmt.Sprintf("%s: request %s was refused (compilation failed) but a fresh compilation of the same text with the same variables is accepted", name, o.Name))
+			case o.Err == nil && fresh:
+				s.violate("C08", "cache-accepts-rejected-program", fmt.Sprintf("%s: request %s succeeded but a fresh compilation of its script (or its variables) is refused", name, o.Name))
 			}
 		}
 	}
+}
+
+// freshPipelineFails: compile + variables + resource resolution on a fresh program.
+func (s *Sim) freshPipelineFails(ctx context.Context, o *OpRecord) (failed bool) {
+	defer func() {
+		if r := recover(); r != nil {
+			failed = true
+		}
+	}()
+	prog, err := compiler.Compile(o.Script.Plain)
+	if err != nil {
+		return true
+	}
+	m := vm.NewMachine(*prog)
+	if err := m.SetVarsFromJSON(cloneScript(o.Script).Vars); err != nil {
+		return true
+	}
+	store := vm.StaticStore{}
+	for a, md := range o.acctReads {
+		acc := &vm.AccountWithBalances{Account: ledger.Account{Address: a, Metadata: metadata.Metadata{}}, Balances: map[string]*big.Int{}}
+		for k, v := range md {
+			acc.Metadata[k] = v
+		}
+		store[a] = acc
+	}
+	if _, _, err := m.ResolveResources(ctx, store); err != nil {
+		return true
+	}
+	return false
 }
 
 func (s *Sim) reexecOne(ctx context.Context, name string, e *Entry, o *OpRecord, bal map[string]*big.Int, acctMeta map[string]map[string]string) {
